@@ -45,6 +45,9 @@ type Node struct {
 type KV struct {
 	K string `json:"k"`
 	V string `json:"v"`
+	// C selects the parse.Config the resolver returns with the value: 0 DefaultConfig, 1 NoopConfig (the value is
+	// taken as it is: no lists, objects, quotes; commas are ordinary characters), 2 EnvConfig (no objects)
+	C int `json:"c,omitempty"`
 }
 
 func (n *Node) Get(k string) *Node {
@@ -360,6 +363,22 @@ func (w *World) at(home *Node, f func()) {
 }
 
 func (w *World) resolver(name string) (string, bool) {
+	s, _, ok := w.resolverCfg(name)
+	return s, ok
+}
+
+// ParseCfg is the parse.Config a resolver table entry returns.
+func ParseCfg(c int) parse.Config {
+	switch c {
+	case 1:
+		return parse.NoopConfig
+	case 2:
+		return parse.EnvConfig
+	}
+	return parse.DefaultConfig
+}
+
+func (w *World) resolverCfg(name string) (string, parse.Config, bool) {
 	for i := len(w.Resolvers) - 1; i >= 0; i-- {
 		for _, kv := range w.Resolvers[i] {
 			if kv.K == name {
@@ -371,11 +390,11 @@ func (w *World) resolver(name string) (string, bool) {
 						}
 					}
 				}
-				return kv.V, true
+				return kv.V, ParseCfg(kv.C), true
 			}
 		}
 	}
-	return "", false
+	return "", parse.DefaultConfig, false
 }
 
 func (w *World) active(name string) bool {
@@ -409,8 +428,11 @@ func primToString(v interface{}) (string, error) {
 }
 
 // ParseText is the documented re-interpretation of substituted text.
-func ParseText(text string) (interface{}, error) {
-	v, err := parse.ValueWithConfig(text, parse.DefaultConfig)
+func ParseText(text string) (interface{}, error) { return ParseTextCfg(text, parse.DefaultConfig) }
+
+// ParseTextCfg is ParseText under the parse.Config a resolver returned with the text.
+func ParseTextCfg(text string, cfg parse.Config) (interface{}, error) {
+	v, err := parse.ValueWithConfig(text, cfg)
 	if err != nil {
 		return nil, err
 	}
@@ -486,8 +508,8 @@ func (w *World) evalToString(n *Node) (string, error) {
 	case "expr":
 		if name, ok := DirectName(n.Expr); ok {
 			fromResolver := func() (string, error, bool) {
-				if s, ok := w.resolver(name); ok {
-					pv, err := ParseText(s)
+				if s, pc, ok := w.resolverCfg(name); ok {
+					pv, err := ParseTextCfg(s, pc)
 					if err != nil {
 						return "", err, true
 					}
@@ -682,8 +704,8 @@ func (w *World) Eval(n *Node) (interface{}, error) {
 	case "expr":
 		if name, ok := DirectName(n.Expr); ok {
 			fromResolver := func() (interface{}, error, bool) {
-				if s, ok := w.resolver(name); ok {
-					pv, err := ParseText(s)
+				if s, pc, ok := w.resolverCfg(name); ok {
+					pv, err := ParseTextCfg(s, pc)
 					return pv, err, true
 				}
 				return nil, nil, false
@@ -770,6 +792,8 @@ type GCfg struct {
 	Names    []string
 	NoDollar bool // no '$' in literals (finding D27 open)
 	EnvExprs bool // Env configs may hold expressions
+	// ResolverCfgs: resolvers return NoopConfig / EnvConfig with some values (a keystore hands out raw text)
+	ResolverCfgs bool
 }
 
 func (g *GCfg) lit(t *rapid.T) string {
@@ -1005,14 +1029,18 @@ func (g *GCfg) GenEnvLayer(t *rapid.T) *Node {
 	return l
 }
 
-var resVals = []string{"rv", "5", "", "p,q", "true", " sp ", "{k: 1}", "-3", "1.5"}
+var resVals = []string{"rv", "5", "", "p,q", "true", " sp ", "{k: 1}", "-3", "1.5", "s3cr,et,[x]", "'q'", "a, b"}
 
 // GenResolver draws a resolver table.
 func (g *GCfg) GenResolver(t *rapid.T) []KV {
 	var r []KV
 	for _, k := range []string{"r1", "r2", "both", "a", "zz", "o.x"} {
 		if rapid.IntRange(0, 2).Draw(t, "reshas") == 0 {
-			r = append(r, KV{k, rapid.SampledFrom(resVals).Draw(t, "resval")})
+			kv := KV{K: k, V: rapid.SampledFrom(resVals).Draw(t, "resval")}
+			if g.ResolverCfgs {
+				kv.C = rapid.SampledFrom([]int{0, 0, 1, 2}).Draw(t, "rescfg")
+			}
+			r = append(r, kv)
 		}
 	}
 	return r
